@@ -155,28 +155,31 @@ theorem simplifyUsingContextAssign_ok (gx gy : Gh) (c : Two) (h : TwoOK c) :
         · exact o2.ok
       · exact onX_ok _ _ o2.ok (replaced_inv gx _)
 
+theorem y_onX (f : PState → PState) (c : Two) : (onX f c).y = c.y := rfl
+theorem al_onX (f : PState → PState) (c : Two) : (onX f c).al = c.al := rfl
+theorem y_onY_nal (f : PState → PState) (c : Two) (hal : c.al = false) : (onY f c).y = f c.y := by
+  simp [onY, hal]
+
 /-- the argument of `intersection_assign` is only re-represented. -/
 theorem intersectionAssign_y (gx gy : Gh) (c : Two) (h : TwoOK c) (hd : c.gy.dim = c.x.dim) (hal : c.al = false) :
     Obs c.y (intersectionAssign gx gy c).y := by
-  have hgy : c.gy = c.y := by simp [gy, hal]
+  have hgy : c.gy = c.y := by simp [Two.gy, hal]
   have hy : Inv c.y := hgy ▸ h.y
   unfold intersectionAssign
   split
   · exact Obs.refl hy
   next hxe =>
   split
-  · exact Obs.refl hy
+  · rw [y_onX]; exact Obs.refl hy
   next hye =>
   split
   · exact Obs.refl hy
   next hxd =>
   have hye' : c.y.b .em = false := by rw [← hgy]; simpa using hye
   have hxd' : c.x.dim ≠ 0 := by simpa using hxd
-  have e : (onX (insertCons { gx with keep := (onY (needCons gy) (onX (needCons gx) c)).gy.csS
-              && !(onY (needCons gy) (onX (needCons gx) c)).gy.cpend })
-            (onY (needCons gy) (onX (needCons gx) c))).y = needCons gy c.y := by
-    simp [onX, onY, hal]
-  simp only
+  have e : ∀ (f1 f2 f3 : PState → PState), (onX f3 (onY f2 (onX f1 c))).y = f2 c.y := fun f1 f2 f3 => by
+    rw [y_onX, y_onY_nal _ _ (by rw [al_onX]; exact hal), y_onX]
+  show Obs c.y (onX _ (onY (needCons gy) (onX (needCons gx) c))).y
   rw [e]
   exact needCons_obs gy c.y hy hye' (by rw [← hgy, hd]; exact hxd')
 
@@ -185,9 +188,9 @@ theorem isDisjointFrom_obs2 (gx gy : Gh) (c : Two) (hc : TwoOK c) (hd : c.gy.dim
     Obs2 c (isDisjointFrom gx gy c) := by
   unfold isDisjointFrom
   obtain ⟨k1, k2, _⟩ := copyCtor_spec c.x hc.x
-  have hz : TwoOK { x := copyCtor c.x, y := c.gy, al := false } := ⟨k1, by simpa [gy] using hc.y⟩
+  have hz : TwoOK { x := copyCtor c.x, y := c.gy, al := false } := ⟨k1, by simpa [Two.gy] using hc.y⟩
   have ho := intersectionAssign_y gx gy { x := copyCtor c.x, y := c.gy, al := false } hz
-    (by simp [gy, k2, hd]) rfl
+    (by rw [k2]; simpa [Two.gy] using hd) rfl
   simp only at ho ⊢
   exact onY_obs2 _ c hc ho
 
